@@ -130,7 +130,7 @@ fn date_grid(r: &mut Rng) -> Vec<NaiveDate> {
     let mut ns: Vec<i128> = vec![];
     for k in -3..=3 { ns.push(dn_min() + k); ns.push(dn_max() + k); ns.push(k); ns.push(719_163 + k); }
     for c in [-5i128, -2, -1, 0, 1, 2, 4, 5, 6] { for k in -6..=6 { ns.push(c * 146_097 + k); ns.push(c * 146_097 - 365 + k); ns.push(c * 146_097 + 366 + k); } }
-    for y in [-262143i128, -100_400, -100_000, -500, -401, -400, -399, -1, 0, 1, 4, 100, 400, 1600, 1900, 1999, 2000, 2024, 2399, 2400, 262142] { for k in [-1i128, 0, 1, 59, 60, 365, 366] { ns.push(dby(y) + k); } }
+    for y in [-262143i128, -100_400, -100_000, -10_000, -9999, -1000, -999, -500, -401, -400, -399, -100, -99, -10, -9, -1, 0, 1, 4, 9, 10, 99, 100, 400, 999, 1000, 1600, 1900, 1969, 1970, 1999, 2000, 2024, 2069, 2070, 2399, 2400, 9999, 10_000, 10_001, 25_700, 99_999, 100_000, 262142] { for k in [-1i128, 0, 1, 59, 60, 365, 366] { ns.push(dby(y) + k); } }
     for _ in 0..400 { ns.push((r.i64_any() as i128).rem_euclid(dn_max() - dn_min() + 1) + dn_min()); }
     for n in ns { if n >= dn_min() && n <= dn_max() { let (y, o) = yo_of(n); if let Some(d) = NaiveDate::from_yo_opt(y as i32, o as u32) { v.push(d); } } }
     v
@@ -514,6 +514,144 @@ fn twin_fmt(r: &mut Rng) {
     }
 }
 
+
+// ---- local time from zone data (C05 / C16): POSIX TZ rules and synthetic TZif files through the public route (TZ variable, fresh thread) ----
+#[derive(Clone, Copy, Debug)]
+enum RD { M(u32, u32, u32), J(u32), Z(u32) }      // Mm.w.d (d: 0 = Sunday) / Jn (1..=365, no leap day) / n (0..=365)
+fn days_civil(y: i128, m: i128, d: i128) -> i128 { let cum = [0, 31, 59, 90, 120, 151, 181, 212, 243, 273, 304, 334][(m - 1) as usize] + if m > 2 && is_leap(y) { 1 } else { 0 }; dby(y) + cum + d - 719_163 }   // days since 1970-01-01
+fn rd_day(rd: RD, y: i128) -> i128 {
+    match rd {
+        RD::J(n) => { let n = n as i128; days_civil(y, 1, 1) + n - 1 + if is_leap(y) && n >= 60 { 1 } else { 0 } }
+        RD::Z(n) => days_civil(y, 1, 1) + n as i128,
+        RD::M(m, w, d) => {
+            let first = days_civil(y, m as i128, 1);
+            let wd_first = (first + 4).rem_euclid(7);                         // 1970-01-01 was a Thursday (Sunday = 0)
+            let mut day = first + (d as i128 - wd_first).rem_euclid(7) + 7 * (w as i128 - 1);
+            let ml = [31, if is_leap(y) { 29 } else { 28 }, 31, 30, 31, 30, 31, 31, 30, 31, 30, 31][(m - 1) as usize] as i128;
+            if day >= first + ml { day -= 7; }                                // week 5 = last
+            day
+        }
+    }
+}
+fn rd_txt(rd: RD) -> String { match rd { RD::M(m, w, d) => format!("M{}.{}.{}", m, w, d), RD::J(n) => format!("J{}", n), RD::Z(n) => format!("{}", n) } }
+fn posix_off(east: i32) -> String { let w = -east; let a = w.unsigned_abs(); let mut s = format!("{}{}", if w < 0 { "-" } else { "" }, a / 3600); if a % 3600 != 0 { s += &format!(":{:02}", a / 60 % 60); if a % 60 != 0 { s += &format!(":{:02}", a % 60); } } s }
+fn hms_txt(t: i32) -> String { let a = t.unsigned_abs(); let mut s = format!("{}{}", if t < 0 { "-" } else { "" }, a / 3600); if a % 3600 != 0 { s += &format!(":{:02}", a / 60 % 60); if a % 60 != 0 { s += &format!(":{:02}", a % 60); } } s }
+#[derive(Clone, Debug)]
+struct Rule { std: i32, dst: i32, start: RD, st: i32, end: RD, et: i32 }
+impl Rule {
+    fn tz(&self) -> String { format!("AAA{}BBB{},{}/{},{}/{}", posix_off(self.std), posix_off(self.dst), rd_txt(self.start), hms_txt(self.st), rd_txt(self.end), hms_txt(self.et)) }
+    /// (instant, becomes_dst) for years y-1 ..= y+1, sorted
+    fn events(&self, y: i128) -> Vec<(i128, bool)> {
+        let mut v = vec![];
+        for yy in y - 1..=y + 1 { v.push((rd_day(self.start, yy) * 86400 + self.st as i128 - self.std as i128, true)); v.push((rd_day(self.end, yy) * 86400 + self.et as i128 - self.dst as i128, false)); }
+        v.sort(); v
+    }
+    fn offset_at(&self, t: i128) -> i32 {
+        let y = yo_of(t.div_euclid(86400) + 719_163).0;
+        let ev = self.events(y);
+        let mut dst = !ev[0].1;
+        for (u, d) in ev { if u <= t { dst = d; } }
+        if dst { self.dst } else { self.std }
+    }
+}
+fn run_zone<F: FnOnce() + Send + 'static>(tz: String, f: F) { std::thread::spawn(move || { std::env::set_var("TZ", &tz); f(); }).join().ok(); }
+fn ndt_of(t: i128) -> Option<NaiveDateTime> { DateTime::from_timestamp(t as i64, 0).map(|d| d.naive_utc()) }
+
+fn check_zone(name: String, offset_at: &dyn Fn(i128) -> i32, offsets: &[i32], probes: &[i128], boundaries: &[i128]) {
+    use chrono::{Local, LocalResult};
+    for &t in probes {
+        let u = match ndt_of(t) { Some(u) => u, None => continue };
+        chk!("Local::offset_from_utc_datetime", (&name, t), guard(|| Local.offset_from_utc_datetime(&u).local_minus_utc()), Ok(offset_at(t)));
+        // wall -> instants: the instant's own wall-clock reading, and readings around it
+        for dw in [0i128, 1, -1, 1800, -1800, 3599, -3600, 7200] {
+            let w = t + offset_at(t) as i128 + dw;
+            if boundaries.iter().any(|&b| offsets.iter().any(|&o| w == b + o as i128)) { continue; }     // the documented boundary second
+            let wl = match ndt_of(w) { Some(x) => x, None => continue };
+            let mut cands: Vec<i128> = offsets.iter().map(|&o| w - o as i128).filter(|&c| offset_at(c) as i128 == w - c).collect();
+            cands.sort(); cands.dedup();
+            let got = guard(|| match Local.from_local_datetime(&wl) { LocalResult::None => vec![], LocalResult::Single(a) => vec![a.timestamp() as i128], LocalResult::Ambiguous(a, b) => vec![a.timestamp() as i128, b.timestamp() as i128] });
+            chk!("Local::from_local_datetime", (&name, w), got, Ok(cands));
+        }
+    }
+}
+
+fn twin_tz(r: &mut Rng) {
+    // --- POSIX rules: both hemispheres, negative DST, Mm.w.d / Jn / n, explicit times; transitions well inside the year
+    let mut rules = vec![
+        Rule { std: -18000, dst: -14400, start: RD::M(3, 2, 0), st: 7200, end: RD::M(11, 1, 0), et: 7200 },       // EST5EDT
+        Rule { std: 3600, dst: 7200, start: RD::M(3, 5, 0), st: 7200, end: RD::M(10, 5, 0), et: 10800 },          // CET
+        Rule { std: 36000, dst: 39600, start: RD::M(10, 1, 0), st: 7200, end: RD::M(4, 1, 0), et: 10800 },        // Sydney (southern)
+        Rule { std: 3600, dst: 0, start: RD::M(10, 5, 0), st: 7200, end: RD::M(3, 5, 0), et: 3600 },              // Dublin style negative DST
+        Rule { std: -10800, dst: -14400, start: RD::M(4, 1, 6), st: 0, end: RD::M(9, 1, 6), et: 0 },              // negative DST, start < end
+        Rule { std: -18000, dst: -14400, start: RD::J(70), st: 7200, end: RD::J(300), et: 7200 },
+        Rule { std: 7200, dst: 10800, start: RD::Z(80), st: 3600, end: RD::Z(290), et: 0 },
+        Rule { std: 12600, dst: 16200, start: RD::J(80), st: 86400, end: RD::J(264), et: 86400 },                 // hour 24
+        Rule { std: 20700, dst: 24300, start: RD::M(5, 3, 3), st: 5400, end: RD::M(8, 2, 5), et: 1830 },          // odd offsets and times
+    ];
+    for _ in 0..6 {
+        let std = ((r.next() % 97) as i32 - 48) * 900; let d = if r.next() % 4 == 0 { -3600 } else { [1800, 3600, 7200][(r.next() % 3) as usize] };
+        let (m1, m2) = (2 + (r.next() % 4) as u32, 8 + (r.next() % 4) as u32);
+        let (a, b) = (RD::M(m1, 1 + (r.next() % 5) as u32, (r.next() % 7) as u32), RD::M(m2, 1 + (r.next() % 5) as u32, (r.next() % 7) as u32));
+        let (st, et) = ((r.next() % 25) as i32 * 3600, (r.next() % 25) as i32 * 3600);
+        rules.push(if r.next() % 2 == 0 { Rule { std, dst: std + d, start: a, st, end: b, et } } else { Rule { std, dst: std + d, start: b, st, end: a, et } });
+    }
+    let seeds: Vec<u64> = (0..rules.len()).map(|_| r.next()).collect();
+    for (rule, seed) in rules.into_iter().zip(seeds) {
+        let tz = rule.tz();
+        run_zone(tz.clone(), move || {
+            let mut rr = Rng(seed | 1);
+            let mut probes: Vec<i128> = vec![];
+            let mut bounds: Vec<i128> = vec![];
+            for y in [1901i128, 1948, 1968, 1969, 1970, 1971, 1999, 2000, 2021, 2023, 2024, 2037, 2038, 2100, 2399, 2400, 9999] {
+                for (u, _) in rule.events(y) { bounds.push(u); for d in [-86400i128, -3601, -3600, -1, 0, 1, 1799, 3599, 3600, 3601, 86400] { probes.push(u + d); } }
+                for mth in 1..=12 { probes.push(days_civil(y, mth, 10) * 86400 + 43_200); }
+            }
+            for _ in 0..200 { probes.push((rr.next() % 8_000_000_000) as i128 - 2_500_000_000); }
+            let rl = rule.clone();
+            check_zone(tz, &move |t| rl.offset_at(t), &[rule.std, rule.dst], &probes, &bounds);
+        });
+    }
+    // --- synthetic TZif v2 files (transition table, optional fixed footer), written by an independent writer
+    let dir = std::env::temp_dir().join(format!("verif-twin-{}", std::process::id()));
+    std::fs::create_dir_all(&dir).ok();
+    for zi in 0..10u32 {
+        let k = (r.next() % 5) as usize;
+        let ntypes = 1 + (r.next() % 4) as usize;
+        let types: Vec<i32> = (0..ntypes).map(|i| if zi == 0 && i > 0 { 3600 } else { ((r.next() % 105) as i32 - 48) * 900 }).collect();
+        let types: Vec<i32> = if zi == 0 { vec![3600; ntypes.max(2)] } else { types };                 // zone 0: transitions that keep the offset (only the abbreviation changes)
+        let mut times: Vec<i64> = vec![]; let mut t = -2_000_000_000i64 + (r.next() % 1_000_000_000) as i64;
+        for _ in 0..k { times.push(t); t += 400_000 + (r.next() % 900_000_000) as i64; }
+        let idx: Vec<u8> = (0..k).map(|_| (r.next() % types.len() as u64) as u8).collect();
+        let footer = r.next() % 2 == 0 && k > 0;
+        let mut f: Vec<u8> = vec![];
+        let block = |f: &mut Vec<u8>, wide: bool, times: &[i64], idx: &[u8], types: &[i32]| {
+            f.extend_from_slice(b"TZif2"); f.extend_from_slice(&[0u8; 15]);
+            for c in [0u32, 0, 0, times.len() as u32, types.len() as u32, (types.len() * 4) as u32] { f.extend_from_slice(&c.to_be_bytes()); }
+            for &t in times { if wide { f.extend_from_slice(&t.to_be_bytes()); } else { f.extend_from_slice(&(t as i32).to_be_bytes()); } }
+            f.extend_from_slice(idx);
+            for (i, &o) in types.iter().enumerate() { f.extend_from_slice(&o.to_be_bytes()); f.push(0); f.push((i * 4) as u8); }
+            for i in 0..types.len() { f.extend_from_slice(&[b'A' + i as u8, b'A' + i as u8, b'A' + i as u8, 0]); }
+        };
+        block(&mut f, false, &[], &[], &types[..1]);
+        block(&mut f, true, &times, &idx, &types);
+        f.push(b'\n');
+        if footer { let last = types[*idx.last().unwrap() as usize]; let i = *idx.last().unwrap(); f.extend_from_slice(format!("{}{}", String::from_utf8(vec![b'A' + i, b'A' + i, b'A' + i]).unwrap(), posix_off(last)).as_bytes()); }
+        f.push(b'\n');
+        let path = dir.join(format!("z{}.tzif", zi));
+        std::fs::write(&path, &f).ok();
+        let (tm, ix, ty) = (times.clone(), idx.clone(), types.clone());
+        let model = move |t: i128| -> i32 { let mut o = ty[0]; for (j, &tt) in tm.iter().enumerate() { if tt as i128 <= t { o = ty[ix[j] as usize]; } } o };
+        let mut probes: Vec<i128> = vec![0, 1_700_000_000, -2_100_000_000, 4_000_000_000];
+        for &tt in &times { for d in [-90_000i128, -3601, -1, 0, 1, 3599, 3600, 90_000] { probes.push(tt as i128 + d); } }
+        let bounds: Vec<i128> = times.iter().enumerate().filter(|(j, _)| { let before = if *j == 0 { types[0] } else { types[idx[j - 1] as usize] }; before != types[idx[*j] as usize] }).map(|(_, &t)| t as i128).collect();
+        let name = format!(":{}", path.display());
+        let (tys, pr, bd) = (types.clone(), probes, bounds);
+        let nm = format!("{} times={:?} idx={:?} types={:?} footer={}", name, times, idx, types, footer);
+        run_zone(name, move || { check_zone(nm, &model, &tys, &pr, &bd); });
+    }
+    std::fs::remove_dir_all(&dir).ok();
+}
+
 fn twin_round(r: &mut Rng) {
     let mut xs: Vec<NaiveDateTime> = vec![];
     for s in [-9_223_372_036i64, -9_223_372_035, 9_223_372_036, 9_223_372_035, 0, -1, 1, 86399, -86400, 1_700_000_000, -1_700_000_000, -9_223_372_037, 9_223_372_037, 253_402_300_799] { for n in [0u32, 1, 499_999_999, 500_000_000, 500_000_001, 999_999_999, 145_224_192, 854_775_807] { if let Some(d) = DateTime::from_timestamp(s, n) { xs.push(d.naive_utc()); } } }
@@ -566,7 +704,8 @@ fn main() {
         "week" => twin_week(&mut r),
         "zoned" => twin_zoned(&mut r),
         "fmt" => twin_fmt(&mut r),
-        _ => { twin_timedelta(&mut r); twin_date(&mut r); twin_iters(&mut r); twin_time(&mut r); twin_datetime(&mut r); twin_round(&mut r); twin_week(&mut r); twin_zoned(&mut r); twin_fmt(&mut r); }
+        "tz" => twin_tz(&mut r),
+        _ => { twin_timedelta(&mut r); twin_date(&mut r); twin_iters(&mut r); twin_time(&mut r); twin_datetime(&mut r); twin_round(&mut r); twin_week(&mut r); twin_zoned(&mut r); twin_fmt(&mut r); twin_tz(&mut r); }
     }
     unsafe { println!("DONE {} cases={} found={}", unit, CASES, FOUND); }
 }
